@@ -278,3 +278,20 @@ Theorem C11_discard_on_unparsable_refuted :
   cfetch par st fs 7 = Miss.
 Proof. exact discard_on_unparsable_refuted. Qed.
 Print Assumptions C11_discard_on_unparsable_refuted.
+
+(* The checksum is an UNSIGNED 32-bit number in the file name (C11_names_injective: the name is injective on
+   [0, 2^32), a table stored under S1 is found for S2 only if S1 = S2).  Instance for the negated pair
+   (S, 2^32 - S) with S = 0xA5A5EEEF: no hit in either direction ... *)
+Theorem C11_negated_pair_unsigned_is_miss :
+  ends_with (cache_name 1515852049) (cache_name 2779115247) = false /\
+  ends_with (cache_name 2779115247) (cache_name 1515852049) = false.
+Proof. exact negated_pair_unsigned_is_miss. Qed.
+Print Assumptions C11_negated_pair_unsigned_is_miss.
+
+(* ... and the signed reading refuted: '-5A5A1111.json' stored for S is found by the suffix match for 2^32 - S *)
+Theorem C11_signed_checksum_refuted :
+  2 ^ 32 - 2779115247 = 1515852049 /\
+  ends_with (cache_name 1515852049) (signed_name 2779115247) = true /\
+  signed_name 2779115247 <> cache_name 2779115247.
+Proof. exact signed_checksum_refuted. Qed.
+Print Assumptions C11_signed_checksum_refuted.
